@@ -43,7 +43,7 @@ Blobs == {"empty_str", "empty_arr", "arr_number", "arr_null", "arr_obj", "garbag
           "badutf8", "nulstr", "lone_surrogate", "long_str"}
 Values == WrongTypes \cup Numbers \cup Blobs
 ValuesCore == {"missing", "null", "string", "array", "number", "int_max", "int_min", "int_2p53", "empty_obj", "garbage"}
-RefShapes == {"empty", "other_format", "unknown", "dup", "self", "many", "tuple_short", "tuple_long", "tuple_badhash",
+RefShapes == {"empty", "other_format", "unknown", "dup", "self", "cycle", "many", "tuple_short", "tuple_long", "tuple_badhash",
               "tuple_nonstr", "elem_empty", "elem_sigil", "missing", "null", "string", "number", "object",
               "arr_number", "arr_null", "arr_obj"}
 KeyShapes == {"pk_short", "pk_len33", "pk_empty", "pk_badb64", "pk_number", "pk_missing"}
@@ -90,7 +90,7 @@ ContentFields(t) ==
       [] t = "power_levels" ->
            {F("content/ban", "int", "content"), F("content/invite", "int", "content"),
             F("content/users_default", "int", "content"), F("content/state_default", "int", "content"),
-            F("content/users", "json", "content"), F("content/users/*key", "user", "content"),
+            F("content/users", "json", "content"), F("content/users/*key", "userkey", "content"),
             F("content/users/$alice", "int", "content"), F("content/events", "json", "content"),
             F("content/events/m.room.name", "int", "content"), F("content/notifications", "json", "content"),
             F("content/notifications/room", "int", "content")}
@@ -107,16 +107,17 @@ ContentFields(t) ==
 
 Fields(v, t) == TopFields(v) \cup ContentFields(t)
 
-\* classes of a field by its kind; Depth = "core" keeps the classes named in the property's discussion
-ClassesOf(kind, depth) ==
+\* classes of a field by its kind; depth "core" keeps the classes named in the property's discussion,
+\* "full" is everything, "extra" = full minus core
+ClassesFor(kind, depth) ==
     LET ids == IF depth = "core" THEN IdStringsCore ELSE IdStrings
         vals == IF depth = "core" THEN ValuesCore ELSE Values
         nums == IF depth = "core" THEN {"int_max", "int_min", "int_2p53", "float", "string_num"} ELSE Numbers
     IN CASE kind \in {"room", "user", "event"} -> ids \cup (WrongTypes \ {"string"})
-         [] kind = "server" -> ids
+         [] kind \in {"server", "userkey"} -> ids
          [] kind = "json" -> vals
          [] kind = "int" -> nums \cup WrongTypes
-         [] kind = "refs" -> IF depth = "core" THEN {"empty", "other_format", "missing", "null", "string", "self", "unknown"} ELSE RefShapes
+         [] kind = "refs" -> IF depth = "core" THEN {"empty", "other_format", "missing", "null", "string", "self", "cycle", "unknown"} ELSE RefShapes
          [] kind = "str" -> {"missing", "null", "number", "array", "empty_str", "long_str", "nulstr"}
          [] kind = "hash" -> {"missing", "null", "number", "empty_str", "string", "badutf8"}
          [] kind = "rv" -> {"missing", "null", "number", "array"} \cup Lit({"1", "12", "bogus", ""})
@@ -127,6 +128,9 @@ ClassesOf(kind, depth) ==
          [] kind = "hv" -> {"missing", "null", "number", "array"} \cup Lit({"shared", "world_readable", "bogus"})
          [] kind = "token" -> {"missing", "null", "number", "empty_str"} \cup Lit({"other"})
          [] kind = "pubkey" -> KeyShapes \cup {"null", "number", "string", "empty_obj"}
+
+ClassesOf(kind, depth) == IF depth = "extra" THEN ClassesFor(kind, "full") \ ClassesFor(kind, "core")
+                          ELSE ClassesFor(kind, depth)
 
 NoFault == [path |-> "none", kind |-> "none", grp |-> "none", cls |-> "none"]
 Fault(f, c) == [path |-> f.path, kind |-> f.kind, grp |-> f.grp, cls |-> c]
@@ -143,7 +147,11 @@ ParseVerdict(v, f1, f2) ==
             \/ f.path \in {"top/depth", "top/origin_server_ts"}
                  /\ f.cls \in {"true", "string", "array", "empty_obj", "object", "float", "int64_over", "bigint", "bigfloat",
                                "string_num", "string_sp", "string_big"}
-            \/ f.kind = "refs" /\ f.cls \in {"missing", "null", "string", "number", "object"}
+            \/ f.kind = "refs" /\ f.cls \in {"string", "number", "object"}
+            \* "auth events and prev events must not be nil": ID lists only; where room IDs have no domain
+            \* the create event is an implied auth event, so the list is never nil
+            \/ f.kind = "refs" /\ f.cls \in {"missing", "null"} /\ EventFormat(v) = 2
+                 /\ (f.path = "top/prev_events" \/ ~DomainlessRoomIDs(v))
             \/ EnforcedCanonJSON(v) /\ f.cls \in NonCanonical /\ f.grp # "unsigned"
     IN IF f1 = NoFault /\ f2 = NoFault THEN "must"
        ELSE IF bad(f1) \/ (f2 # NoFault /\ bad(f2)) THEN "mustnot" ELSE "may"
@@ -229,6 +237,35 @@ Outcomes(op) == IF op \in RawOps
                 ELSE (IF op \in ParsedOpsWithError THEN {"ok", "error"} ELSE {"ok"})
 \* where in its life the datum must be for the operation to apply
 Needs(op) == IF op \in RawOps THEN "raw" ELSE "parsed"
+
+\* ------------------------------------------------------------------------
+\* Library calls: the finer vocabulary of recorded executions.  An operation of a pipeline is one or
+\* several library calls (AddToProvider = NewAuthEvents + AddEvent + the content loaders, ...).
+\* ------------------------------------------------------------------------
+ParsedCallsWithError ==
+    {Acc(a) : a \in AccessorsWithError} \cup {Hlp(h) : h \in HelpersWithError} \cup MutatorsWithError
+      \cup {"VerifySignatures", "AddToProvider:NewAuthEvents", "AddToProvider:CreateContent", "AddToProvider:PowerLevelContent",
+            "AddToProvider:JoinRuleContent", "AddToProvider:MemberContent", "AddToProvider:ThirdPartyInviteContent",
+            "AddToProvider:AuthEventReferences", "AuthCheck:Allowed",
+            "Resolve:new", "Resolve:old", "Resolve:checkstate", "Resolve:sendjoin", "Resolve:load", "Resolve:authchain"}
+ParsedCallsNoError ==
+    {Acc(a) : a \in Accessors \ AccessorsWithError} \cup {Hlp(h) : h \in Helpers \ HelpersWithError}
+      \cup (Mutators \ MutatorsWithError)
+      \cup {"VerifySignatures:all", "AuthCheck:Valid", "Resolve:direct:v1", "Resolve:direct:v2", "Resolve:direct:v2new",
+            "Resolve:topo_auth", "Resolve:topo_prev", "Resolve:topo_headered", "Resolve:linearise"}
+ParsedCalls == ParsedCallsWithError \cup ParsedCallsNoError
+Calls == RawOps \cup ParsedCalls
+CallOutcomes(c) == IF c \in RawOps THEN Outcomes(c)
+                   ELSE IF c \in ParsedCallsWithError THEN {"ok", "error"} ELSE {"ok"}
+CallNeeds(c) == IF c \in RawOps THEN "raw" ELSE "parsed"
+
+\* the life-cycle state after one recorded call, "bad" when the specification does not explain the line
+AfterCall(s, c, outcome) ==
+    IF s = "bad" \/ c \notin Calls THEN "bad"
+    ELSE IF outcome \notin CallOutcomes(c) THEN "bad"           \* in particular: a panic
+    ELSE IF CallNeeds(c) # s THEN "bad"                         \* nothing runs on a datum that is not there
+    ELSE IF c = "Parse:untrusted" THEN (IF outcome = "ok" THEN "parsed" ELSE "error")
+    ELSE s
 
 \* ------------------------------------------------------------------------
 \* The state machine
